@@ -267,6 +267,13 @@ func (w *Worker) ensureInit(g *Goroutine, pkg *ssa.Package) {
 	}
 	if noInitPkgs[pkg.Pkg.Path()] {
 		w.inited[pkg] = 2
+		switch pkg.Pkg.Path() {
+		case "os", "syscall", "internal/poll", "runtime", "reflect", "log", "testing":
+			// a silently zero global must never make a property pass
+			if g != nil && g.p != nil && w.initDepth == 0 {
+				g.p.unsupported("use of a package-level variable of %s, whose initialiser is not modelled", pkg.Pkg.Path())
+			}
+		}
 		return
 	}
 	w.inited[pkg] = 1
